@@ -53,6 +53,10 @@ type Core struct {
 
 	// A `stack` of labels to jump to if an exception is raised
 	ExceptionCatchLabels []CallFrame
+	// For each catch label: the state of the core when the `try` block was entered.
+	// Catching an exception restores this state so that frames, operands and memory of the
+	// aborted computation do not leak into the code following the `catch`.
+	catchStates []catchState
 
 	// Points to the start of the current stackframe
 	// Then, the absolute index can be computed by adding the value of mp and the relative offset of the memory location.
@@ -61,6 +65,12 @@ type Core struct {
 	CancelCtx *context.Context
 	// Describes some resource limits for the current core
 	Limits CoreLimits
+}
+
+type catchState struct {
+	callStackLen  int
+	stackLen      int
+	memoryPointer int64
 }
 
 type CoreLimits struct {
@@ -311,13 +321,14 @@ outer:
 						return
 					}
 
-					// If the exception occurred in another function, also pop the call frame of this function
-					// If this was not the case, a function would basically "return twice",
-					// as the jump to the error-handling code would not pop the most current call frame.
+					// Unwind to the state in which the `try` block was entered: this pops the call frames of
+					// all functions which the exception passed through (at any depth), discards operands of
+					// the aborted expressions and releases the memory of the aborted frames.
 					catchLocation := self.ExceptionCatchLabels[len(self.ExceptionCatchLabels)-1]
-					if self.callFrame().Function != catchLocation.Function {
-						self.popCallStack()
-					}
+					state := self.catchStates[len(self.catchStates)-1]
+					self.CallStack = self.CallStack[:state.callStackLen]
+					self.Stack = self.Stack[:state.stackLen]
+					self.MemoryPointer = state.memoryPointer
 					*self.callFrame() = catchLocation
 
 					self.push(
